@@ -122,7 +122,7 @@ func insertAt(l []*entry, i int, e *entry) []*entry {
 	return l
 }
 
-var malformedSamples = []string{`{"type":"m.room.member","room_id":`, `{}`, `null`, `"event"`, `[1,2]`, `{"room_id":"!x:y","type":5}`}
+var malformedSamples = []string{`{"type":"m.room.member","room_id":`, `null`, `{}`, `null`, `"event"`, `[1,2]`, `{"room_id":"!x:y","type":5}`}
 
 // pickMissingBehaviour draws how the caller's event provider reacts when asked
 // for an event that did not arrive usable.
